@@ -28,6 +28,9 @@ use crate::REQUEST_FRAMING_BYTES;
 
 const HEX: Encoding = HEXLOWER_PERMISSIVE;
 
+/// Nested messages deeper than this are displayed as hex rather than being decoded further
+const MAX_DISPLAY_NESTING: usize = 16;
+
 ///
 /// A Roughtime protocol message; a map of u32 tags to arbitrary byte-strings.
 ///
@@ -337,8 +340,10 @@ impl RtMessage {
             result.push_str(") = ");
 
             // The value of a nested tag is untrusted input and may not be a valid message;
-            // fall back to hex output in that case instead of panicking.
-            let nested_msg = if tag.is_nested() {
+            // fall back to hex output in that case instead of panicking. Genuine messages nest
+            // three levels deep; the depth of the recursion is bounded so that a crafted
+            // message (64 KiB can hold thousands of nested levels) cannot exhaust the stack.
+            let nested_msg = if tag.is_nested() && indent_level < MAX_DISPLAY_NESTING {
                 RtMessage::from_bytes(value).ok()
             } else {
                 None
